@@ -6,12 +6,14 @@ package main
 
 import (
 	"bufio"
+	"bytes"
 	"context"
 	"encoding/json"
 	"fmt"
 	"os"
 	"os/exec"
 	"path/filepath"
+	"regexp"
 	"sort"
 	"strconv"
 	"strings"
@@ -332,8 +334,41 @@ func writeOverlay(path string) error {
 	if err != nil {
 		return err
 	}
+	badgerCommitHook(repl, filepath.Dir(path))
 	b, _ := json.MarshalIndent(map[string]any{"Replace": repl}, "", " ")
 	return os.WriteFile(path, b, 0o644)
+}
+
+// badgerCommitHook instruments the storage engine for the crash stages: the overlay replaces badger's txn.go by a copy
+// in which a successful Txn.Commit calls a package-level hook variable (nil unless a scenario sets it), so that a
+// writer process can be killed right after its k-th commit - also where the hub has no hook point of its own. Nothing
+// under the module cache or /repo is touched; if the expected line is not found the build goes on without the hook.
+func badgerCommitHook(repl map[string]string, scratch string) {
+	gomod, err := os.ReadFile(filepath.Join(repoDir, "go.mod"))
+	if err != nil {
+		return
+	}
+	m := regexp.MustCompile(`github.com/dgraph-io/badger/v4 (v[0-9][^\s]*)`).FindSubmatch(gomod)
+	if m == nil {
+		return
+	}
+	out, err := exec.Command("go", "env", "GOMODCACHE").Output()
+	if err != nil {
+		return
+	}
+	dir := filepath.Join(strings.TrimSpace(string(out)), "github.com", "dgraph-io", "badger", "v4@"+string(m[1]))
+	src, err := os.ReadFile(filepath.Join(dir, "txn.go"))
+	const old = "\treturn txnCb()\n"
+	if err != nil || bytes.Count(src, []byte(old)) != 1 {
+		return
+	}
+	patched := bytes.Replace(src, []byte(old), []byte("\tif err := txnCb(); err != nil {\n\t\treturn err\n\t}\n\tif VerifCommitHook != nil {\n\t\tVerifCommitHook()\n\t}\n\treturn nil\n"), 1)
+	patched = append(patched, []byte("\n// VerifCommitHook is called after every successful Txn.Commit (verification builds only).\nvar VerifCommitHook func()\n")...)
+	pt := filepath.Join(scratch, "badger_txn_hooked.go")
+	if os.WriteFile(pt, patched, 0o644) != nil {
+		return
+	}
+	repl[filepath.Join(dir, "txn.go")] = pt
 }
 
 // ---------- running children
